@@ -5,7 +5,10 @@ use crate::push::random::CodeGenerator;
 use crate::push::state::PushState;
 use crate::push::state::*;
 use crate::push::stack::PushPrint;
+#[cfg(not(feature = "verif"))]
 use std::collections::HashMap;
+#[cfg(feature = "verif")]
+use crate::push::verif_seam::DetMap as HashMap;
 use std::fmt;
 
 #[derive(Clone, Debug, Default)]
